@@ -1,5 +1,6 @@
 import GwModel.ScrubLemmas
 import GwModel.Gen.Facts
+import GwModel.ScrubApply
 /-! # C04 — Responses hold exactly the requested keys; join ids never leak or vanish
 
 Proved on the model of the scrub-path computation (`Scrub`, mirroring generateScrubFields and generateScrubFieldsWalk and
@@ -35,6 +36,28 @@ theorem requested_id_kept (sel : List S) (roots : List PStep) (ps : List (List S
   obtain ⟨_, _, tg, htg, hno⟩ := ((scrubPaths_exact sel roots ps h).2 p).1 hp
   rw [hw] at htg; cases htg
   rw [hid] at hno; cases hno
+
+/-- **what the scrubber does to the response** (`Scr`, the model of middlewares.go `scrubInsertionIDs`, tied by the
+    L2.scrub correspondence): for a listed location and a response with the promised kinds, the join id is deleted
+    from exactly the objects the location leads to — in every list element, at every depth — and each of them keeps
+    every other key … -/
+theorem the_join_id_is_removed_where_listed (infos : List Fp.PInfo) (chunk : Ins.KVs) (paths : List (List Fp.RPt))
+    (hfind : Fp.findPts infos chunk [] = .ok paths) (hc : Fp.Conf infos chunk) :
+    ∃ final, Scr.scrubLocation infos chunk = some final ∧
+      ∀ p ∈ paths, ∃ o, Fp.walk (.obj chunk) p = some (.obj o) ∧ Fp.walk final p = some (.obj (Scr.erase 0 o)) :=
+  Scr.scrubLocation_exact infos chunk paths hfind hc
+
+/-- … (an object without its `id` key has no `id`, and every other key is where it was) … -/
+theorem erased_object_has_no_id_and_keeps_the_rest {o : Ins.KVs} (h : Ins.Sorted o) :
+    Ins.lookup 0 (Scr.erase 0 o) = none ∧ ∀ k, k ≠ 0 → Ins.lookup k (Scr.erase 0 o) = Ins.lookup k o :=
+  ⟨Scr.lookup_erase_self h, fun _ hk => Scr.lookup_erase_other hk h⟩
+
+/-- … and a deletion at one place leaves every place that parts from it at a list index as it was, so the order
+    of the deletions is immaterial -/
+theorem scrubbing_one_place_leaves_the_others (p q : List Fp.RPt) (x : Ins.J) (op oq : Ins.KVs)
+    (hp : Fp.walk x p = some (.obj op)) (hq : Fp.walk x q = some (.obj oq)) (h : Fp.Parts p q) :
+    ∃ x', Scr.deleteAt x (p.map Fp.toPt) = some x' ∧ Fp.walk x' q = some (.obj oq) :=
+  Scr.deleteAt_frame p q x op oq hp hq h
 
 /-- non-vacuity: `{ me { firstName friends { id nick } } }` with steps at [me] and [me, friends] -/
 example :
